@@ -79,11 +79,13 @@ class Metric:
 
 
 class Callback:
-    def __init__(self, path):
-        self.path = path
+    """post-evaluation callback; `tag` tells the callbacks of a session apart in the side file"""
+
+    def __init__(self, path, tag='c'):
+        self.path, self.tag = path, tag
 
     def __call__(self, graph):
-        _append(self.path, 'c %d\n' % label_of(graph))
+        _append(self.path, '%s %d\n' % (self.tag, label_of(graph)))
 
 
 class Delegate(DelegateEvaluator):
@@ -164,6 +166,11 @@ def make_timer(t):
         tm = Timer(timeout=datetime.timedelta(0))
     elif kind == 'expired_opt':
         tm = OptimisationTimer(timeout=datetime.timedelta(0))
+    elif kind == 'tiny':
+        tm = Timer(timeout=datetime.timedelta(milliseconds=1))
+        tm.__enter__()
+        time.sleep(0.005)           # the limit has passed before the first evaluation starts
+        return tm, tm
     elif kind == 'generous':
         tm = Timer(timeout=datetime.timedelta(minutes=30))
     elif kind == 'generous_opt':
@@ -177,13 +184,26 @@ def make_timer(t):
 def timer_pattern(t):
     if t['kind'] == 'fake':
         return list(t['pattern']), bool(t['rest'])
-    if t['kind'].startswith('expired'):
+    if t['kind'].startswith('expired') or t['kind'] == 'tiny':
         return [], True
     return [], False
 
 
-def observe(sc, run, tmpdir):
-    """one dispatcher call on fresh objects; returns the canonical observation"""
+WRONG_CALLBACK = 50000      # a call of a callback that is not the one currently set is shown as this + label
+
+
+def make_dispatcher(run, dg):
+    delegate = Delegate(dg['add'], dg['mul'], dg['drop'], dg['enabled']) if dg else None
+    if run['par']:
+        disp = MultiprocessingDispatcher(DirectAdapter(), n_jobs=run['n_jobs'], delegate_evaluator=delegate)
+    else:
+        disp = SequentialDispatcher(DirectAdapter(), delegate_evaluator=delegate)
+    return disp, delegate
+
+
+def evaluate_step(disp, delegate, sc, run, tmpdir, pop=None, cb_tag='c'):
+    """dispatch(objective, timer) + set callback + one evaluation on `disp`; canonical observation.
+    Returns (observation, population objects)."""
     path = os.path.join(tmpdir, 'events.log')
     if os.path.exists(path):
         os.remove(path)
@@ -191,14 +211,9 @@ def observe(sc, run, tmpdir):
     delays = {int(k): v for k, v in run.get('delays', {}).items()}
     metrics = {'m%d' % k: Metric(k, table, delays, path) for k in range(sc['nmetrics'])}
     objective = Objective(metrics, is_multi_objective=sc['multi'])
-    pop = build_population(sc)
-    dg = sc.get('delegate')
-    delegate = Delegate(dg['add'], dg['mul'], dg['drop'], dg['enabled']) if dg else None
-    if run['par']:
-        disp = MultiprocessingDispatcher(DirectAdapter(), n_jobs=run['n_jobs'], delegate_evaluator=delegate)
-    else:
-        disp = SequentialDispatcher(DirectAdapter(), delegate_evaluator=delegate)
-    disp.set_graph_evaluation_callback(Callback(path))
+    if pop is None:
+        pop = build_population(sc)
+    disp.set_graph_evaluation_callback(Callback(path, cb_tag))
     timer, entered = make_timer(sc['timer'])
     # canonical uid: position of the first individual of the input carrying that uid string
     first = {}
@@ -206,6 +221,8 @@ def observe(sc, run, tmpdir):
         first.setdefault(ind.uid, j)
     uids_in = [first[ind.uid] for ind in pop]
     pre_in = [canon_fit(ind.fitness) for ind in pop]
+    labels_in = [label_of(ind.graph) for ind in pop]
+    calls_before = len(delegate.calls) if delegate else 0
     raised = None
     out = []
     try:
@@ -227,11 +244,33 @@ def observe(sc, run, tmpdir):
     if os.path.exists(path):
         for ln in open(path).read().split('\n'):
             w = ln.split()
-            if w:
-                log.append([w[0]] + [int(x) for x in w[1:]])
-    return {'uids': uids_in, 'pre': pre_in, 'labels': [d['label'] for d in sc['pop']],
-            'raised': raised, 'out': out, 'log': log,
-            'deleg': [[list(a), list(b)] for a, b in (delegate.calls if delegate else [])]}
+            if not w:
+                continue
+            if w[0] == 'm':
+                log.append(['m', int(w[1]), int(w[2])])
+            else:
+                log.append(['c', int(w[1]) if w[0] == cb_tag else WRONG_CALLBACK + int(w[1])])
+    ob = {'uids': uids_in, 'pre': pre_in, 'labels': labels_in, 'raised': raised, 'out': out, 'log': log,
+          'deleg': [[list(a), list(b)] for a, b in (delegate.calls[calls_before:] if delegate else [])]}
+    return ob, pop
+
+
+def observe(sc, run, tmpdir):
+    """one dispatcher call on a fresh dispatcher and fresh objects; returns the canonical observation"""
+    disp, delegate = make_dispatcher(run, sc.get('delegate'))
+    return evaluate_step(disp, delegate, sc, run, tmpdir)[0]
+
+
+def observe_session(ses, tmpdir):
+    """several dispatch + evaluate rounds on ONE dispatcher object; a list of (scenario, run, observation)"""
+    run = {'par': ses['par'], 'n_jobs': ses['n_jobs']}
+    disp, delegate = make_dispatcher(run, ses.get('delegate'))
+    out, pop = [], None
+    for st in ses['steps']:
+        ob, pop = evaluate_step(disp, delegate, st['sc'], run, tmpdir, pop=pop if st.get('reuse') else None,
+                                cb_tag=st.get('cb', 'c'))
+        out.append((st['sc'], run, ob))
+    return out
 
 
 # ----------------------------------------------------------------------------------------
@@ -304,7 +343,7 @@ def gen_scenario(rng, n, allow_fake_timer=True, allow_delegate=True, force=None)
     multi = force.get('multi', rng.random() < 0.4)
     p_pre = force.get('p_pre', rng.choice([0.0, 0.0, 0.25, 0.5]))
     p_fail = force.get('p_fail', rng.choice([0.0, 0.3, 0.6, 1.0]))
-    share_label = rng.random() < 0.08          # two individuals with equal graphs
+    share_label = force.get('share', True) and rng.random() < 0.08          # two individuals with equal graphs
     pop = []
     for j in range(n):
         pres = [k for k, d in enumerate(pop) if d['kind'] == 'pre']
@@ -355,10 +394,42 @@ def gen_scenario(rng, n, allow_fake_timer=True, allow_delegate=True, force=None)
     labels = sorted({d['label'] for d in pop})
     table = {str(g): gen_row(rng, nmetrics, p_fail) for g in labels}
     if delegate:
-        gin = [d['label'] for d in reversed(pop)]
-        for g in delegate_images(delegate['add'], delegate['mul'], 0, gin):
-            table.setdefault(str(g), gen_row(rng, nmetrics, p_fail))
+        # the parallel dispatcher hands the reversed population to the delegate, the sequential one the input order
+        for gin in ([d['label'] for d in reversed(pop)], [d['label'] for d in pop]):
+            for g in delegate_images(delegate['add'], delegate['mul'], 0, gin):
+                table.setdefault(str(g), gen_row(rng, nmetrics, p_fail))
     return {'pop': pop, 'table': table, 'nmetrics': nmetrics, 'multi': multi, 'timer': timer, 'delegate': delegate}
+
+
+def gen_session(rng, par, n_jobs):
+    """one dispatcher object, 2..4 rounds of dispatch(objective, timer) + evaluate; the objective, the timer and
+    the callback change between the rounds; a round may re-evaluate the population objects of the previous one"""
+    dg = None
+    if rng.random() < 0.3:
+        dg = {'add': 100, 'mul': rng.choice([0, 20]), 'drop': rng.choice([0, 0, 1]), 'enabled': rng.random() < 0.85}
+    limited = ['expired', 'expired_opt', 'tiny']
+    free = ['none', 'none', 'generous', 'generous_opt']
+    shape = rng.random()
+    if shape < 0.4:
+        timers = [rng.choice(limited), 'none'] + [rng.choice(limited + free) for _ in range(rng.choice([0, 0, 1, 2]))]
+    elif shape < 0.6:
+        timers = ['none', rng.choice(limited)] + [rng.choice(limited + free) for _ in range(rng.choice([0, 1]))]
+    else:
+        timers = [rng.choice(limited + free) for _ in range(rng.choice([2, 3, 4]))]
+    steps = []
+    for k, tk in enumerate(timers):
+        n = rng.choice([1, 2, 3, 4, 6, 9])
+        sc = gen_scenario(rng, n, allow_fake_timer=False, allow_delegate=False,
+                          force={'timer': tk, 'delegate': dict(dg) if dg else None, 'share': False})
+        reuse = bool(k > 0 and dg is None and rng.random() < 0.45)
+        if reuse:
+            # the same Individual objects again (those evaluated in the previous round are pre-evaluated now),
+            # under a new objective over the same graphs
+            prev = steps[-1]['sc']
+            sc['pop'] = prev['pop']
+            sc['table'] = {g: gen_row(rng, sc['nmetrics'], rng.choice([0.0, 0.3, 0.6])) for g in prev['table']}
+        steps.append({'sc': sc, 'cb': rng.choice(['c', 'k']), 'reuse': reuse})
+    return {'par': par, 'n_jobs': n_jobs, 'delegate': dg, 'steps': steps}
 
 
 def gen_delays(rng, sc):
@@ -420,6 +491,8 @@ def case_key(sc, run):
 # ----------------------------------------------------------------------------------------
 def evaluate_cases(ctx, group, triples, with_canary=False):
     """triples: (scenario, run, observation); emits Coq cases, registers results"""
+    extras = [t[3] if len(t) > 3 else {} for t in triples]
+    triples = [t[:3] for t in triples]
     cases = [coq_case(sc, run, ob) for sc, run, ob in triples]
     canary_at = None
     if with_canary:
@@ -437,12 +510,17 @@ def evaluate_cases(ctx, group, triples, with_canary=False):
     res = ctx.coq_cases(group, REQ, FN, cases, NB, shard=60)
     if canary_at is not None and res[canary_at][:2] == (False, False):
         ctx.canaries_caught += 1
-    for (sc, run, ob), bits in zip(triples, res):
+    for (sc, run, ob), bits, extra in zip(triples, res, extras):
         ag, ho = bits[0], bits[1]
-        case = {'scenario': sc, 'run': run, 'observed': ob}
+        case = dict({'scenario': sc, 'run': run, 'observed': ob}, **extra)
         ctx.count(group, key=case_key(sc, run), nontrivial=nontrivial(sc, ob), **classify(sc, run, ob))
         if not ho:
-            ctx.violate(group, case, describe_violation(sc, run, ob, bits[2:]))
+            what = describe_violation(sc, run, ob, bits[2:])
+            if 'session' in extra:
+                what = ('round %d of a session on ONE dispatcher object (time limits of the rounds: %s; this round: %s): %s'
+                        % (extra['step'] + 1, [st['sc']['timer']['kind'] for st in extra['session']['steps']],
+                           sc['timer']['kind'], what))
+            ctx.violate(group, case, what)
         if not ag:
             ctx.disagree(group, case, 'model and implementation differ (returned individuals, event log or delegate calls)')
     return res
@@ -464,7 +542,9 @@ def run(ctx):
                 '(1..3 metrics, each raising / returning None / NaN / a dyadic value per graph, single or multi '
                 'objective), a time limit (none, generous, expired from the start, or - in process - any pattern of '
                 'answers by call index), an optional delegate evaluator (shifted labels, position dependent, '
-                'truncated output, disabled), n_jobs 1/2/4 and per-graph sleeps permuting completion. Exhaustive '
+                'truncated output, disabled), n_jobs 1/2/4 and per-graph sleeps permuting completion. Sessions: ONE dispatcher '
+                'object dispatched 2..4 times with changing objective / time limit (expired, tiny, none, generous) / '
+                'callback, optionally re-evaluating the same Individual objects; every round is a case. Exhaustive '
                 'small scope: all populations of <= 2 individuals over 5 kinds x 2 timers x 2 dispatchers. '
                 'distinct = distinct (scenario, dispatcher, n_jobs, delays); non-trivial = in the quantifier of the '
                 'property and at least one individual to evaluate.')
@@ -534,6 +614,18 @@ def run(ctx):
         for t in triples[:2]:
             ctx.sample({'scenario': t[0], 'run': t[1], 'observed': t[2]})
         check_cross(ctx, cross)
+        # ---- sessions: one dispatcher object, several dispatch(objective, timer) + evaluate rounds; every
+        #      evaluation must be what a fresh dispatcher dispatched with the same arguments answers (the model)
+        triples = []
+        plan = [(True, 1)] * ctx.budget(22, 220) + [(False, 1)] * ctx.budget(22, 220) + [(True, 2)] * ctx.budget(3, 30)
+        for par, nj in plan:
+            ses = gen_session(rng, par, nj)
+            for k, (sc, rn, ob) in enumerate(observe_session(ses, tmpdir)):
+                triples.append((sc, rn, ob, {'session': ses, 'step': k}))
+        ctx.set_exhaustive('sessions', False)
+        evaluate_cases(ctx, 'sessions', triples)
+        if triples:
+            ctx.sample({'session': triples[0][3]['session'], 'observed_round_1': triples[0][2]})
     finally:
         shutil.rmtree(tmpdir, ignore_errors=True)
         try:
@@ -588,8 +680,16 @@ def replay(ctx, payload):
     case = v.get('case') if isinstance(v, dict) else None
     if not case or 'scenario' not in case:
         return
-    sc, rn = case['scenario'], case['run']
     tmpdir = tempfile.mkdtemp(prefix='c05_')
+    if 'session' in case:                       # a round of a session: redo the whole session
+        try:
+            ses = case['session']
+            evaluate_cases(ctx, 'replay', [(sc, rn, ob, {'session': ses, 'step': k})
+                                           for k, (sc, rn, ob) in enumerate(observe_session(ses, tmpdir))])
+        finally:
+            shutil.rmtree(tmpdir, ignore_errors=True)
+        return
+    sc, rn = case['scenario'], case['run']
     try:
         ob = observe(sc, rn, tmpdir)
         triples = [(sc, rn, ob)]
